@@ -35,11 +35,25 @@ fn mgr_kind(k: usize) -> TableMgr {
 
 #[allow(clippy::too_many_arguments)]
 fn one(out: &mut Out, rng: &mut Rng, exts: &[ExtSpec], ptype: u16, label: Label, plen: usize, buflen: usize, mk: usize, what: &str) {
+    one_s(out, rng, exts, ptype, label, plen, buflen, mk, what, false)
+}
+
+/// `subst`: a complete packet with the same label precedes, so that the encapsulator replaces the
+/// label of the packet under test by the re-use marker
+#[allow(clippy::too_many_arguments)]
+fn one_s(out: &mut Out, rng: &mut Rng, exts: &[ExtSpec], ptype: u16, label: Label, plen: usize, buflen: usize, mk: usize, what: &str, subst: bool) {
     let pdu = Pdu::random(out, plen, rng);
     let mgr = mgr_kind(mk);
     let mut rx = mk_rx(out, "ext", what, 2, plen.max(8) + (mk % 2), 2, mgr, true);
     rx.note_id(33);
     let mut enc = Encapsulator::new(DefaultCrc {});
+    if subst {
+        let small = Pdu::random(out, 4, rng);
+        let t = ev_encap(out, &mut enc, &small, 32, label, 0x0800, 64, None, None);
+        if reported_len(&t.res).is_some() {
+            feed(out, &mut rx, &t.wire, vec![]);
+        }
+    }
     let t = ev_encap(out, &mut enc, &pdu, 33, label, ptype, buflen, Some(exts), None);
     let mut ctx = match &t.res {
         Some(Ok(EncapStatus::CompletedPkt(_))) => {
@@ -114,6 +128,15 @@ pub fn run(out: &mut Out, seed: u64, thorough: bool) {
         while b < complete_len {
             one(out, &mut rng, &exts, ptype, label, plen, b, (b + ci) % 3, "fragmented");
             b += step;
+        }
+        // the same with the label replaced by the re-use marker (a packet with that label precedes)
+        if label != Label::Broadcast {
+            one_s(out, &mut rng, &exts, ptype, label, plen, complete_len - label.len(), 0, "complete_reuse", true);
+            let mut b = first_hdr.saturating_sub(label.len() + 1);
+            while b + label.len() < complete_len {
+                one_s(out, &mut rng, &exts, ptype, label, plen, b, 0, "fragmented_reuse", true);
+                b += if thorough { 2 } else { 5 };
+            }
         }
         // a PDU that cannot be sent complete even in a large buffer
         if ci % 6 == 0 {
